@@ -4,6 +4,7 @@ CONSTANTS N = 3
  FullY = TRUE
  Pep709 = FALSE
  Skeleton = FALSE
+ ChainOnly = FALSE
  AnyOrder = TRUE
  AllOptions = TRUE
 INVARIANT NoCapture
